@@ -45,7 +45,7 @@ CONSTANTS Nodes, InitUp,        \* all nodes; those running initially
 VARIABLES up,      \* nodes that run
           view,    \* node -> the peers it believes alive (memberlist membership; may lag behind a crash)
           st,      \* node -> key -> set of updates merged
-          tr,      \* node -> transport: [gq, nid, oq, hand, dropped, sent, failed]
+          tr,      \* node -> transport: [gq, nid, ov: key -> [oq, hand, dropped, sent, failed]]
           net,     \* gossip packets in flight: [id, from, to, msgs]
           round,   \* scheduler round (one gossip interval)
           served,  \* node -> peers it gossiped to in this round
@@ -76,7 +76,10 @@ Oversized(x) == x > MaxPacket \div 2            \* cluster.OversizedMessage
 MLen(m) == PartLen(SumLen(m.us))                \* a message is [key, us]
 
 Idle == [m |-> [key |-> "", us |-> {}], pend |-> {}]
-T0 == [gq |-> {}, nid |-> 0, oq |-> << >>, hand |-> Idle, dropped |-> 0, sent |-> 0, failed |-> 0]
+\* one Channel per state key: its queue of oversized messages, the message its
+\* worker is sending (hand) with the peers whose send has not returned, counters
+V0 == [oq |-> << >>, hand |-> Idle, dropped |-> 0, sent |-> 0, failed |-> 0]
+T0 == [gq |-> {}, nid |-> 0, ov |-> [k \in Keys |-> V0]]
 
 -----------------------------------------------------------------------------
 (* Channel.msgc as a run-length encoded sequence of [m, c]                   *)
@@ -87,32 +90,40 @@ PushQ(q, m, c) == IF c = 0 THEN q
                   ELSE Append(q, [m |-> m, c |-> c])
 PopQ(q) == IF Head(q).c = 1 THEN Tail(q) ELSE [q EXCEPT ![1].c = @ - 1]
 
-Enq(T, m, k) ==
-  LET put == Min(k, OversizeCap - QLen(T.oq))
-  IN [T EXCEPT !.oq = PushQ(@, m, put), !.dropped = @ + (k - put)]
+Enq(V, m, k) ==
+  LET put == Min(k, OversizeCap - QLen(V.oq))
+  IN [V EXCEPT !.oq = PushQ(@, m, put), !.dropped = @ + (k - put)]
 
-(* Channel.Broadcast called k times with the same payload (the worker       *)
-(* goroutine runs after every call).  peers = what Channel.peers() returns. *)
+(* the oversized branch of Channel.Broadcast, k times with the same payload *)
+(* (the worker goroutine runs after every call)                             *)
+BcastV(V, m, k, peers) ==
+  IF V.hand.pend = {}                                  \* worker idle: it takes the message at once
+    THEN IF peers = {} THEN V                          \* ... and sends it to nobody
+         ELSE Enq([V EXCEPT !.hand = [m |-> m, pend |-> peers],
+                            !.sent = @ + Cardinality(peers)], m, k - 1)
+    ELSE Enq(V, m, k)
+
+(* Channel.Broadcast called k times.  peers = what Channel.peers() returns. *)
 BcastK(T, m, k, peers) ==
   IF k = 0 THEN T
   ELSE IF ~Oversized(MLen(m))
     THEN [T EXCEPT !.gq = @ \cup {[id |-> T.nid + i, m |-> m, tx |-> 0] : i \in 0 .. k-1},
                    !.nid = @ + k]                      \* send: bcast.QueueBroadcast
-    ELSE IF T.hand.pend = {}                           \* worker idle: it takes the message at once
-      THEN IF peers = {} THEN T                        \* ... and sends it to nobody
-           ELSE Enq([T EXCEPT !.hand = [m |-> m, pend |-> peers],
-                              !.sent = @ + Cardinality(peers)], m, k - 1)
-      ELSE Enq(T, m, k)
+    ELSE [T EXCEPT !.ov[m.key] = BcastV(@, m, k, peers)]
 
 (* handleOverSizedMessages after wg.Wait(): next message, ask for the peers *)
-Advance(T, peers) ==
-  IF T.oq = << >> THEN [T EXCEPT !.hand = Idle]
-  ELSE IF peers = {} THEN [T EXCEPT !.hand = Idle, !.oq = << >>]
-  ELSE [T EXCEPT !.hand = [m |-> Head(T.oq).m, pend |-> peers], !.oq = PopQ(@),
+Advance(V, peers) ==
+  IF V.oq = << >> THEN [V EXCEPT !.hand = Idle]
+  ELSE IF peers = {} THEN [V EXCEPT !.hand = Idle, !.oq = << >>]
+  ELSE [V EXCEPT !.hand = [m |-> Head(V.oq).m, pend |-> peers], !.oq = PopQ(@),
                  !.sent = @ + Cardinality(peers)]
-Resolve(T, p, ok, peers) ==
-  LET T1 == [T EXCEPT !.hand.pend = @ \ {p}, !.failed = @ + (IF ok THEN 0 ELSE 1)]
-  IN IF T1.hand.pend # {} THEN T1 ELSE Advance(T1, peers)
+Resolve(V, p, ok, peers) ==
+  LET V1 == [V EXCEPT !.hand.pend = @ \ {p}, !.failed = @ + (IF ok THEN 0 ELSE 1)]
+  IN IF V1.hand.pend # {} THEN V1 ELSE Advance(V1, peers)
+
+Dropped(T) == T.ov["sil"].dropped + T.ov["nfl"].dropped
+Failed(T)  == T.ov["sil"].failed + T.ov["nfl"].failed
+Busy(T)    == \E k \in Keys : T.ov[k].hand.pend # {}
 
 (* TransmitLimitedQueue.GetBroadcasts(overhead, limit): sequence of chosen  *)
 (* queue items                                                              *)
@@ -205,7 +216,7 @@ Init == /\ up = InitUp
 (* state's broadcast function = Channel.Broadcast.  k > 1: the same bytes   *)
 (* broadcast k times (burst).                                               *)
 Route(T, m) == IF ~Oversized(MLen(m)) THEN "gossip"
-               ELSE IF T.hand.pend = {} \/ QLen(T.oq) < OversizeCap THEN "oversize" ELSE "dropped"
+               ELSE IF T.ov[m.key].hand.pend = {} \/ QLen(T.ov[m.key].oq) < OversizeCap THEN "oversize" ELSE "dropped"
 Broadcast(n, u) ==
   /\ n \in up /\ born[u].r = 0 /\ u \notin Foreign
   /\ LET m == [key |-> UKey[u], us |-> {u}]
@@ -213,7 +224,7 @@ Broadcast(n, u) ==
      IN /\ st' = [st EXCEPT ![n][UKey[u]] = @ \cup {u}]
         /\ tr' = [tr EXCEPT ![n] = T2]
         /\ born' = Bear(st')
-        /\ hurt' = hurt \cup (IF T2.dropped > tr[n].dropped THEN {u} ELSE {})
+        /\ hurt' = hurt \cup (IF Dropped(T2) > Dropped(tr[n]) THEN {u} ELSE {})
         /\ last' = [op |-> "bcast", n |-> n, u |-> u, len |-> MLen(m), route |-> Route(tr[n], m)]
   /\ UNCHANGED <<up, view, net, round, served, sweep, ppdone, since, deferred, orphaned, used>>
 
@@ -223,9 +234,9 @@ Burst(n, u, k) ==
          T2 == BcastK(tr[n], m, k, Peers(n))
      IN /\ Oversized(MLen(m))
         /\ tr' = [tr EXCEPT ![n] = T2]
-        /\ hurt' = hurt \cup (IF T2.dropped > tr[n].dropped THEN {u} ELSE {})
+        /\ hurt' = hurt \cup (IF Dropped(T2) > Dropped(tr[n]) THEN {u} ELSE {})
         /\ used' = [used EXCEPT !.burst = @ + 1]
-        /\ last' = [op |-> "burst", n |-> n, u |-> u, k |-> k, dropped |-> T2.dropped - tr[n].dropped]
+        /\ last' = [op |-> "burst", n |-> n, u |-> u, k |-> k, dropped |-> Dropped(T2) - Dropped(tr[n])]
   /\ UNCHANGED <<up, view, st, net, round, served, sweep, ppdone, born, since, deferred, orphaned>>
 
 (* One call of delegate.GetBroadcasts by memberlist.gossip for peer p; the  *)
@@ -257,7 +268,7 @@ Deliver(pk, keep) ==
         /\ tr' = [tr EXCEPT ![n] = r.T]
         /\ net' = IF keep THEN net ELSE net \ {pk}
         /\ used' = IF keep THEN [used EXCEPT !.dup = @ + 1] ELSE used
-        /\ hurt' = hurt \cup {u \in UsOf(pk.msgs) : r.T.dropped > tr[n].dropped}
+        /\ hurt' = hurt \cup {u \in UsOf(pk.msgs) : Dropped(r.T) > Dropped(tr[n])}
         /\ last' = [op |-> "deliver", pk |-> pk.id, n |-> n, keep |-> keep,
                     new |-> Cardinality(UsOf(pk.msgs) \ HeldBy(n))]
   /\ UNCHANGED <<up, view, round, served, sweep, ppdone, born, since, deferred, orphaned>>
@@ -272,16 +283,16 @@ Lose(pk) ==
 
 (* The pending reliable send of n's worker to p returns: delivered to p's   *)
 (* NotifyMsg iff p runs, else an error (failure counter).                   *)
-SendReliable(n, p) ==
-  /\ n \in up /\ p \in tr[n].hand.pend
+SendReliable(n, k, p) ==
+  /\ n \in up /\ p \in tr[n].ov[k].hand.pend
   /\ LET ok == p \in up
-         m == tr[n].hand.m
-         Tn == Resolve(tr[n], p, ok, Peers(n))
+         m == tr[n].ov[k].hand.m
+         Tn == [tr[n] EXCEPT !.ov[k] = Resolve(@, p, ok, Peers(n))]
          r == IF ok THEN MergeMsg(st[p], tr[p], m, Peers(p)) ELSE [S |-> st[p], T |-> tr[p]]
      IN /\ st' = [st EXCEPT ![p] = r.S]
         /\ tr' = [tr EXCEPT ![n] = Tn, ![p] = r.T]
-        /\ hurt' = hurt \cup (IF ok /\ r.T.dropped = tr[p].dropped THEN {} ELSE m.us)
-        /\ last' = [op |-> "sendrel", n |-> n, p |-> p, ok |-> ok, m |-> m]
+        /\ hurt' = hurt \cup (IF ok /\ Dropped(r.T) = Dropped(tr[p]) THEN {} ELSE m.us)
+        /\ last' = [op |-> "sendrel", n |-> n, k |-> k, p |-> p, ok |-> ok, m |-> m]
   /\ UNCHANGED <<up, view, net, round, served, sweep, ppdone, born, since, deferred, orphaned, used>>
 
 (* memberlist push/pull: both local states are taken first, then each side  *)
@@ -365,7 +376,7 @@ InjectFull(n, fs) ==
 (* every reliable send has returned.                                        *)
 RoundDone ==
   /\ net = {}
-  /\ \A n \in up : /\ tr[n].hand.pend = {}
+  /\ \A n \in up : /\ ~Busy(tr[n])
                    /\ (tr[n].gq = {} \/ view[n] \subseteq served[n])
 EndRound ==
   /\ RoundDone
@@ -411,14 +422,14 @@ DeliveredSweep ==
 \* node - or the update was left behind by a full packet (memberlist retires a
 \* message after TxLimit transmissions whoever received it; no counter).
 Quiet == /\ net = {}
-         /\ \A n \in up : tr[n].gq = {} /\ tr[n].hand.pend = {} /\ tr[n].oq = << >>
+         /\ \A n \in up : tr[n].gq = {} /\ \A k \in Keys : tr[n].ov[k].hand.pend = {} /\ tr[n].ov[k].oq = << >>
 Accounted ==
   Quiet => \A u \in Updates \ Foreign : \A n \in up :
              (born[u].r > 0 /\ since[n].r < born[u].r /\ ~Has(n, u)) =>
                 \/ u \in deferred
                 \/ /\ u \in hurt
                    /\ \/ used.lose + used.crash > 0
-                      \/ \E m \in Nodes : tr[m].dropped + tr[m].failed > 0
+                      \/ \E m \in Nodes : Dropped(tr[m]) + Failed(tr[m]) > 0
 
 \* Delivered, eventually (checked under fairness of push/pull, no state constraint)
 DeliveredEventually ==
@@ -466,7 +477,7 @@ GrowOnly == [][\A n \in Nodes : \A k \in Keys : n \in up' /\ last'.op # "join" =
 \* bookkeeping of the oversize path: the worker is idle only with an empty queue;
 \* the queue never exceeds its capacity; nothing oversized is ever gossiped
 OversizeSane ==
-  \A n \in Nodes : /\ QLen(tr[n].oq) <= OversizeCap
-                   /\ (tr[n].hand.pend = {} => tr[n].oq = << >>)
+  \A n \in Nodes : /\ \A k \in Keys : /\ QLen(tr[n].ov[k].oq) <= OversizeCap
+                                      /\ (tr[n].ov[k].hand.pend = {} => tr[n].ov[k].oq = << >>)
                    /\ \A q \in tr[n].gq : q.tx < TxLimit /\ ~Oversized(MLen(q.m))
 =============================================================================
